@@ -92,6 +92,27 @@ class StartTaskHandler(StabilizeHandler[StartTask]):
                         )
                 return
 
+            # Stale-message guard: a task may only be started while its stage is
+            # RUNNING. A StartTask that outlived its stage (e.g. a jump re-armed the
+            # stage to NOT_STARTED, or the stage was canceled/completed) must not
+            # run a task of a stage that has not been (re)started.
+            if stage.status != WorkflowStatus.RUNNING:
+                logger.debug(
+                    "Ignoring StartTask for %s (%s) - stage %s is %s",
+                    task_model.name,
+                    task_model.id,
+                    stage.name,
+                    stage.status,
+                )
+                if message.message_id:
+                    with self.repository.transaction(self.queue) as txn:
+                        txn.mark_message_processed(
+                            message_id=message.message_id,
+                            handler_type="StartTask",
+                            execution_id=message.execution_id,
+                        )
+                return
+
             # Check if task should be skipped
             try:
                 task_impl = self.task_registry.get(task_model.implementing_class)
